@@ -24,6 +24,7 @@ mod c06;
 mod c15;
 mod c16;
 mod c17;
+mod c18;
 mod c19;
 mod c20;
 
@@ -107,6 +108,7 @@ fn main() {
         "C15" => c15::run(&ctx, evidence.as_ref()),
         "C16" => c16::run(&ctx, evidence.as_ref()),
         "C17" => c17::run(&ctx, evidence.as_ref()),
+        "C18" => c18::run(&ctx, evidence.as_ref()),
         "C19" => c19::run(&ctx, evidence.as_ref()),
         "C20" => c20::run(&ctx, evidence.as_ref()),
         _ => {
